@@ -129,3 +129,26 @@ Lemma sample3d_on_linspace {B} (f : Q -> Q -> Q -> B) nx ax bx ny ay by_ nz az b
 Proof.
   intros Hi Hj Hk. apply sample3d_index; apply linspace_nth; assumption.
 Qed.
+
+(* the _points variants in two dimensions, and the one-/two-dimensional samplers on evenly spaced ranges *)
+Lemma sample2d_points_index {A B} (f : A -> A -> B) pts i x y :
+  nth_error pts i = Some (x, y) -> nth_error (sample2d_points f pts) i = Some (f x y).
+Proof.
+  intros H. unfold sample2d_points. apply (map_nth_error (fun p => f (fst p) (snd p))) in H. exact H.
+Qed.
+Lemma sample_points_length {A B} (f3 : A -> A -> A -> B) (f2 : A -> A -> B) p3 p2 :
+  length (sample3d_points f3 p3) = length p3 /\ length (sample2d_points f2 p2) = length p2.
+Proof. split; apply map_length. Qed.
+Lemma sample1d_on_linspace {B} (f : Q -> B) n a b i : (0 <= i < n)%Z ->
+  nth_error (sample1d f (linspace n a b)) (Z.to_nat i) = Some (f (linspace_at n a b i)).
+Proof. intros H. apply sample1d_index, linspace_nth, H. Qed.
+Lemma sample2d_on_linspace {B} (f : Q -> Q -> B) nx ax bx ny ay by_ i j : (0 <= i < nx)%Z -> (0 <= j < ny)%Z ->
+  exists row, nth_error (sample2d f (linspace nx ax bx) (linspace ny ay by_)) (Z.to_nat i) = Some row
+              /\ nth_error row (Z.to_nat j) = Some (f (linspace_at nx ax bx i) (linspace_at ny ay by_ j)).
+Proof. intros Hi Hj. apply sample2d_index; apply linspace_nth; assumption. Qed.
+Lemma sample2d_shape {A B} (f : A -> A -> B) xs ys :
+  length (sample2d f xs ys) = length xs /\ Forall (fun row => length row = length ys) (sample2d f xs ys).
+Proof.
+  unfold sample2d. split; [apply map_length |].
+  apply Forall_forall. intros row H. apply in_map_iff in H as (x & <- & _). apply map_length.
+Qed.
